@@ -39,7 +39,7 @@ fn scn_with(r: &mut Rng, n: usize, server_mode: bool, bootstrap_empty: bool) -> 
     tape_seed(r.next());
     let peers: Vec<Peer> = (0..n).map(|i| Peer::new(peer_id(i, r))).collect();
     let node = Manual::new(&[], server_mode, Default::default());
-    let mut s = Scn { node, peers, now: 1000, sent: Vec::new(), ticks: 0 };
+    let mut s = Scn { node, peers, now: 1000, sent: Vec::new(), ticks: 0, listed: None };
     for _ in 0..5 {
         s.step(&mut |s, inc| s.honest(inc));
     }
@@ -290,7 +290,7 @@ pub fn adapt_case(r: &mut Rng, server_mode: bool, plan: u8, steps: usize) -> Str
         tape_seed(r.next());
         let peers: Vec<Peer> = (0..n).map(|i| Peer::new(peer_id(i, r))).collect();
         let node = Manual::new_cfg(&[peers[0].addr], server_mode, Default::default(), Some(std::net::Ipv4Addr::new(127, 0, 0, 1)));
-        let mut s = Scn { node, peers, now: 1000, sent: Vec::new(), ticks: 0 };
+        let mut s = Scn { node, peers, now: 1000, sent: Vec::new(), ticks: 0, listed: None };
         s.settle();
         s
     } else {
